@@ -538,53 +538,179 @@ def key_file_rule(ctx, rid, impl, method, name_param="key_name", dir_attr="keys_
             expected="every read of the key uses the same path", found=f"{len(paths)} different paths: {[repr(p)[:80] for p in paths]}")
 
 
+def cli_registrations(repo, m):
+    """[(function, add_argument call node, positional arg ASTs, {keyword: AST})] for every option a command module registers: direct
+    `parser.add_argument(...)` calls, calls through `functools.partial(parser.add_argument, **common)`, and calls inside a helper
+    function of the module - one registration per call of the helper, with the helper's parameters replaced by the arguments of
+    that call (so that a flag or a default handed to the helper is seen as written at the call site)."""
+    from sa.index import walk_no_nested
+    out = []
+
+    class Subst(ast.NodeTransformer):
+        def __init__(self, mapping):
+            self.mapping = mapping
+
+        def visit_Name(self, node):
+            return self.mapping.get(node.id, node) if isinstance(node.ctx, ast.Load) else node
+
+    def helper_calls(f):
+        calls = []
+        for g in m.functions.values():
+            for n_ in walk_no_nested(g.node):
+                if isinstance(n_, ast.Call) and ((isinstance(n_.func, ast.Name) and n_.func.id == f.name) or (
+                        isinstance(n_.func, ast.Attribute) and n_.func.attr == f.name)) and g is not f:
+                    calls.append(n_)
+        return calls
+
+    for f in m.functions.values():
+        partials = {}  # local name -> (pos ASTs, kw ASTs) bound by functools.partial(<x>.add_argument, ...)
+        for n_ in walk_no_nested(f.node):
+            if isinstance(n_, ast.Assign) and len(n_.targets) == 1 and isinstance(n_.targets[0], ast.Name) and isinstance(n_.value, ast.Call) \
+                    and ast.unparse(n_.value.func).split(".")[-1] == "partial" and n_.value.args and isinstance(n_.value.args[0], ast.Attribute) \
+                    and n_.value.args[0].attr == "add_argument":
+                partials[n_.targets[0].id] = (list(n_.value.args[1:]), {k.arg: k.value for k in n_.value.keywords if k.arg}, n_.value.args[0].value)
+        own = []
+        # a call inside `for <names> in <literal table>` (or a local / module name bound to one) is one registration per row, with the
+        # loop names replaced by the row's items
+        local_tables = {n_.targets[0].id: n_.value for n_ in walk_no_nested(f.node) if isinstance(n_, ast.Assign) and len(n_.targets) == 1
+                        and isinstance(n_.targets[0], ast.Name) and isinstance(n_.value, (ast.Tuple, ast.List))}
+
+        def rows_of(loop):
+            it = loop.iter
+            if isinstance(it, ast.Name):
+                it = local_tables.get(it.id) or (m.assigns.get(it.id) if hasattr(m, "assigns") else None)
+            if not isinstance(it, (ast.Tuple, ast.List)):
+                return None
+            rows = []
+            for row in it.elts:
+                if isinstance(loop.target, ast.Name):
+                    rows.append({loop.target.id: row})
+                elif isinstance(loop.target, (ast.Tuple, ast.List)) and isinstance(row, (ast.Tuple, ast.List)) and len(row.elts) == len(loop.target.elts) \
+                        and all(isinstance(t_, ast.Name) for t_ in loop.target.elts):
+                    rows.append({t_.id: v_ for t_, v_ in zip(loop.target.elts, row.elts)})
+                else:
+                    return None
+            return rows
+        par_ = {}
+        for p_ in ast.walk(f.node):
+            for ch_ in ast.iter_child_nodes(p_):
+                par_[ch_] = p_
+
+        def variants(c, pos, kw, recv):
+            loops_ = []
+            q_ = par_.get(c)
+            while q_ is not None and q_ is not f.node:
+                if isinstance(q_, ast.For):
+                    loops_.append(q_)
+                q_ = par_.get(q_)
+            combos = [{}]
+            for lp in loops_:
+                rows = rows_of(lp)
+                if rows is None:
+                    continue
+                combos = [{**c0, **r_} for c0 in combos for r_ in rows]
+            import copy as _copy
+            for mp_ in combos:
+                if not mp_:
+                    yield c, pos, kw, recv
+                else:
+                    yield (c, [Subst(mp_).visit(_copy.deepcopy(t)) for t in pos], {k: Subst(mp_).visit(_copy.deepcopy(v)) for k, v in kw.items()},
+                           Subst(mp_).visit(_copy.deepcopy(recv)))
+        for c in walk_no_nested(f.node):
+            if not isinstance(c, ast.Call):
+                continue
+            if isinstance(c.func, ast.Attribute) and c.func.attr == "add_argument":
+                own.extend(variants(c, list(c.args), {k.arg: k.value for k in c.keywords if k.arg}, c.func.value))
+            elif isinstance(c.func, ast.Name) and c.func.id in partials:
+                ppos, pkw, precv = partials[c.func.id]
+                own.extend(variants(c, ppos + list(c.args), {**pkw, **{k.arg: k.value for k in c.keywords if k.arg}}, precv))
+        if not own:
+            continue
+        params = f.params()
+        uses_params = any(isinstance(x, ast.Name) and x.id in params[1:] for _, pos, kw, _r in own for t in pos + list(kw.values()) for x in ast.walk(t))
+        calls = helper_calls(f) if (f.name != "add_arguments") else []
+        if calls and (uses_params or True):
+            for call in calls:
+                mapping = {}
+                for i_, a_ in enumerate(call.args):
+                    if i_ < len(params):
+                        mapping[params[i_]] = a_
+                for k_ in call.keywords:
+                    if k_.arg:
+                        mapping[k_.arg] = k_.value
+                # defaults of the helper's own parameters
+                dflt = f.node.args.defaults
+                for nm, d_ in zip(params[len(params) - len(dflt):], dflt):
+                    mapping.setdefault(nm, d_)
+                for c, pos, kw, recv in own:
+                    import copy as _copy
+                    pos2 = [Subst(mapping).visit(_copy.deepcopy(t)) for t in pos]
+                    kw2 = {k: Subst(mapping).visit(_copy.deepcopy(v)) for k, v in kw.items()}
+                    out.append((f, c, pos2, kw2, Subst(mapping).visit(_copy.deepcopy(recv))))
+        else:
+            for c, pos, kw, recv in own:
+                out.append((f, c, pos, kw, recv))
+    # options registered in a loop over a literal table of flags: one registration per row when the flag is the loop variable
+    return out
+
+
 def cli_converters(ctx, rid, modname, floor):
     """argparse `type=` converters of a command module: a numeric option must denote the number the user wrote (int, or int(x, 0)
     which honours the 0x / 0o / 0b prefix); a fixed other base silently reads the same digits as another number.  The same option
-    of sibling sub-commands must be converted the same way (Engler-style sibling contradiction)."""
-    from sa.index import walk_no_nested
+    of sibling sub-commands must be converted the same way (Engler-style sibling contradiction).  A default taken from an attribute
+    named default_<x> belongs to the option <x> (belief rule: the names say which default is meant)."""
     R = ctx.report
     repo = ctx.repo
     m = repo.mod(modname)
-    R.rule(rid, floor, "type= converters: int / int(x, 0) / str / Path / enum classes; siblings agree")
+    R.rule(rid, floor, "type= converters: int / int(x, 0) / str / Path / enum classes; siblings agree; default_<x> feeds option <x>")
     seen = {}
     n = 0
-    for f in m.functions.values():
-        # a helper that registers options shared by several sub-commands stands for one registration per call of the helper
-        uses = sum(1 for n_ in ast.walk(m.tree) if isinstance(n_, ast.Call) and ((isinstance(n_.func, ast.Name) and n_.func.id == f.name)
-                                                                              or (isinstance(n_.func, ast.Attribute) and n_.func.attr == f.name)))
-        for c in walk_no_nested(f.node):
-            if not (isinstance(c, ast.Call) and isinstance(c.func, ast.Attribute) and c.func.attr == "add_argument"):
-                continue
-            flags = [a.value for a in c.args if isinstance(a, ast.Constant) and isinstance(a.value, str)]
-            tk = next((k.value for k in c.keywords if k.arg == "type"), None)
-            if tk is None or not flags:
-                continue
-            n += max(1, uses)
-            ok, found = False, ast.unparse(tk)
-            if isinstance(tk, (ast.Name, ast.Attribute)):
-                r = repo.resolve_expr(m, tk)
-                ok = bool(r) and ((r[0] == "builtin" and r[1] in ("int", "str", "float")) or (r[0] == "ext" and r[1] in ("pathlib.Path", "int", "str"))
-                                  or r[0] == "class")
-            elif isinstance(tk, ast.Lambda) and len(tk.args.args) == 1:
-                x = tk.args.args[0].arg
-                b = tk.body
-                if isinstance(b, ast.Call) and isinstance(b.func, ast.Name) and b.func.id == "int" and b.args and isinstance(b.args[0], ast.Name) \
-                        and b.args[0].id == x and not b.keywords:
-                    base = b.args[1] if len(b.args) > 1 else None
-                    ok = base is None or (isinstance(base, ast.Constant) and base.value in (0, 10))
-                    if not ok:
-                        found = f"int(x, {ast.unparse(base)}): the digits the user wrote are read in a fixed other base"
-            R.check(rid, ok, f"{ctx.fq(f)}: {flags[0]}", mod=m, node=c, function=ctx.fq(f), expected="int / lambda x: int(x, 0) / str / Path / enum class",
-                    found=found, key_extra=flags[0])
-            for _ in range(max(1, uses) - 1):
-                R.ok(rid, f"{ctx.fq(f)}: {flags[0]} (registered once per call of the helper)")
-            norm = ast.dump(tk)
-            for fl in flags:
-                if fl in seen and seen[fl][0] != norm:
-                    R.fail(rid, f"{ctx.fq(f)}: {fl} converted differently by sibling sub-commands", mod=m, node=c, function=ctx.fq(f),
-                           expected=f"{fl}: {seen[fl][1]} everywhere", found=ast.unparse(tk), key_extra=fl + "|sibling")
-                seen.setdefault(fl, (norm, ast.unparse(tk)))
+    for f, c, pos, kws, _recv in cli_registrations(repo, m):
+        flags = [a.value for a in pos if isinstance(a, ast.Constant) and isinstance(a.value, str)]
+        if not flags:
+            continue
+        dest = kws["dest"].value if "dest" in kws and isinstance(kws["dest"], ast.Constant) else (
+            ([fl for fl in flags if fl.startswith("--")] or flags)[0].lstrip("-").replace("-", "_"))
+        d = kws.get("default")
+        dname = d.attr if isinstance(d, ast.Attribute) else (d.id if isinstance(d, ast.Name) else None)
+        if dname and dname.lower().startswith("default_") and len(dname) > 8:
+            what = dname[8:].lower()
+            rid_d = rid
+            agree = what == dest or what.endswith("_" + dest) or dest.endswith("_" + what) or what.endswith(dest) or dest.endswith(what)
+            if not agree:
+                R.fail(rid_d, f"{ctx.fq(f)}: {flags[0]} default", mod=m, node=c, function=ctx.fq(f), expected=f"the default of {flags[0]} is the one named after it (default_{dest})",
+                       found=f"default={ast.unparse(d)}: the default of another option", key_extra=flags[0] + "|default")
+        tk = kws.get("type")
+        if tk is None:
+            continue
+        n += 1
+        ok, found = False, ast.unparse(tk)
+        if isinstance(tk, (ast.Name, ast.Attribute)):
+            r = repo.resolve_expr(m, tk)
+            ok = bool(r) and ((r[0] == "builtin" and r[1] in ("int", "str", "float")) or (r[0] == "ext" and r[1] in ("pathlib.Path", "int", "str"))
+                              or r[0] == "class")
+            if not ok and r and r[0] == "func":
+                # a named converter function: its body must be int(x) / int(x, 0)
+                body = [b_ for b_ in r[1].node.body if not (isinstance(b_, ast.Expr) and isinstance(b_.value, ast.Constant))]
+                if len(body) == 1 and isinstance(body[0], ast.Return) and len(r[1].params()) == 1:
+                    tk = ast.Lambda(args=r[1].node.args, body=body[0].value)
+        if isinstance(tk, ast.Lambda) and len(tk.args.args) == 1:
+            x = tk.args.args[0].arg
+            b = tk.body
+            if isinstance(b, ast.Call) and isinstance(b.func, ast.Name) and b.func.id == "int" and b.args and isinstance(b.args[0], ast.Name) \
+                    and b.args[0].id == x and not b.keywords:
+                base = b.args[1] if len(b.args) > 1 else None
+                ok = base is None or (isinstance(base, ast.Constant) and base.value in (0, 10))
+                if not ok:
+                    found = f"int(x, {ast.unparse(base)}): the digits the user wrote are read in a fixed other base"
+        R.check(rid, ok, f"{ctx.fq(f)}: {flags[0]}", mod=m, node=c, function=ctx.fq(f), expected="int / lambda x: int(x, 0) / str / Path / enum class",
+                found=found, key_extra=flags[0])
+        norm = ast.dump(tk)
+        for fl in flags:
+            if fl in seen and seen[fl][0] != norm:
+                R.fail(rid, f"{ctx.fq(f)}: {fl} converted differently by sibling sub-commands", mod=m, node=c, function=ctx.fq(f),
+                       expected=f"{fl}: {seen[fl][1]} everywhere", found=ast.unparse(tk), key_extra=fl + "|sibling")
+            seen.setdefault(fl, (norm, ast.unparse(tk)))
     if n < floor:
         raise AnalysisError(f"{modname}: only {n} add_argument(type=...) sites found")
 
@@ -897,15 +1023,14 @@ def subcommand_dispatch(ctx, rid, modname, floor=2):
                         except AnalysisError:
                             continue
                         parsers.setdefault(n.targets[0].id, {"name": None, "opts": set(), "via": "", "dest": dv})
-    for n in walk_no_nested(aa.node):
-        if isinstance(n, ast.Call) and isinstance(n.func, ast.Attribute) and n.func.attr == "add_argument" and isinstance(n.func.value, ast.Name) \
-                and n.func.value.id in parsers:
-            d_ = dest_of(n)
-            if d_:
-                parsers[n.func.value.id]["opts"].add(d_)
-        if isinstance(n, ast.Call) and isinstance(n.func, ast.Name) and n.func.id in helper_opts and n.args and isinstance(n.args[0], ast.Name) \
-                and n.args[0].id in parsers:
-            parsers[n.args[0].id]["opts"] |= helper_opts[n.func.id]
+    for f_, c_, pos_, kws_, recv_ in cli_registrations(repo, m):
+        if isinstance(recv_, ast.Name) and recv_.id in parsers:
+            flags_ = [a_.value for a_ in pos_ if isinstance(a_, ast.Constant) and isinstance(a_.value, str)]
+            if "dest" in kws_ and isinstance(kws_["dest"], ast.Constant):
+                parsers[recv_.id]["opts"].add(kws_["dest"].value)
+            elif flags_:
+                longs_ = [x_ for x_ in flags_ if x_.startswith("--")] or flags_
+                parsers[recv_.id]["opts"].add(longs_[0].lstrip("-").replace("-", "_"))
     # the innermost level of sub-commands that main dispatches on: sub-parsers registered through an add_subparsers(dest=...) object
     levels = {}
     for var, p in parsers.items():
